@@ -267,15 +267,19 @@ func cmpPct(req, cap *big.Int, T int64) (c int, near bool) {
 	return
 }
 
-// floatExact reports whether both float formulations of the percentage give exactly T.
-func floatExact(req, cap *big.Int, T int64) bool {
-	rf, _ := new(big.Float).SetInt(req).Float64()
-	cf, _ := new(big.Float).SetInt(cap).Float64()
-	return rf/cf*100 == float64(T) && rf*100/cf == float64(T)
+// floatSafe reports whether escalator's float64 percentage (request*100/capacity, both taken
+// in thousandths of the unit: millicores, milli-bytes) is computed without any rounding before
+// the division, so that exact equality with an integer threshold is representable.
+func floatSafe(req, cap *big.Int, scale int64) bool {
+	limit := new(big.Int).Lsh(big.NewInt(1), 53)
+	r := new(big.Int).Mul(req, big.NewInt(100*scale))
+	c := new(big.Int).Mul(cap, big.NewInt(scale))
+	return r.Cmp(limit) < 0 && c.Cmp(limit) < 0
 }
 
-// cmpMax compares u = max(cpu%, mem%) with T; the flags say whether the deciding
-// comparison sits in the float tolerance zone or is an exact equality that floats miss.
+// cmpMax compares u = max(cpu%, mem%) with T; fuzzy says that the deciding comparison sits
+// in the float tolerance zone (unequal but closer than 2^-30 relative), or is an exact
+// equality at magnitudes where float64 cannot be relied on to reproduce it.
 func cmpMax(reqC, capC, reqM, capM *big.Int, T int64) (c int, fuzzy bool) {
 	cc, nc := cmpPct(reqC, capC, T)
 	cm, nm := cmpPct(reqM, capM, T)
@@ -284,10 +288,10 @@ func cmpMax(reqC, capC, reqM, capM *big.Int, T int64) (c int, fuzzy bool) {
 		c = cm
 	}
 	fuzzy = nc || nm
-	if cc == 0 && !floatExact(reqC, capC, T) {
+	if cc == 0 && !floatSafe(reqC, capC, 1) {
 		fuzzy = true
 	}
-	if cm == 0 && !floatExact(reqM, capM, T) {
+	if cm == 0 && !floatSafe(reqM, capM, 1000) {
 		fuzzy = true
 	}
 	return
